@@ -51,6 +51,17 @@ def run(ctx, ck) -> None:
                    'whatever Mixin does to the matrix)', instance='per-subclass default tags')
         else:
             ck.incomplete('G1', f'{CORE}._monkey_patch_operator', 'the default-False tag registration of __init_subclass__ was not recognised')
+    # the scalar operator is tagged diagonal, symmetric and square: true only if its value is 0-d, i.e. if the arithmetic that
+    # builds it refuses every other factor (shared with C02.S4, decided by evaluation)
+    from . import c02 as _c02
+
+    _sub = type(ck)(ck.pid)
+    _base = table.get(f'{CORE}.AbstractLinearOperator')
+    _c02._scalar_arithmetic_by_evaluation(ctx, _sub, _base, table.get(f'{CORE}.HomothetyOperator'), table.get(f'{CORE}.CompositionOperator'))
+    for _o in _sub.obs:
+        if 'non-scalar factors refused' in _o.construct:
+            _o.rule = f'{ck.pid}.G2'
+            ck.obs.append(_o)
     kinds = all_mv(ctx)
     pol: Polarimetry = ctx.cache.get('polarimetry') or Polarimetry(world, table)
     ctx.cache['polarimetry'] = pol
